@@ -21,6 +21,7 @@ from ..core import h64, vacuity
 
 LEVEL = 'model_checking'
 RULE = ('full cartesian products (A: every sparsity mask of every shape x every layout prefix; '
+        'V: every pool value with both signs in every cell of 1x1/1x2/2x1; '
         'B: id style x id style, metadata kind x metadata kind, style x kind, each x header variants on '
         'fixed masks; C: every metadata value of a JSON value grammar to depth 2 incl. numpy scalars) '
         'x {string, direct_io} writer x 5 readers, all executed on the real code; a case is '
@@ -121,6 +122,13 @@ def cases(tier, seed):
                 out.append({'prod': 'B-x', 'shape': list(shape), 'mask': mask, 'rot': rot,
                             'obs_style': st, 'samp_style': st, 'obs_md': mk, 'samp_md': mk,
                             'header': 1, 'layout': lay})
+    # V: every value of the pools (both signs) in every cell of the smallest shapes, independent of the seed
+    for v in D.all_values():
+        out.append({'prod': 'V', 'shape': [1, 1], 'mask': 1, 'vals': [v], 'layout': 'csr'})
+        for other in (1.0, 0.0):
+            for sh in ([1, 2], [2, 1]):
+                out.append({'prod': 'V', 'shape': sh, 'mask': 3, 'vals': [v, other], 'layout': 'csr'})
+                out.append({'prod': 'V', 'shape': sh, 'mask': 3, 'vals': [other, v], 'layout': 'csc'})
     for ty in D.TYPES:
         out.append({'prod': 'B-type', 'shape': [2, 2], 'mask': 0b0110, 'rot': rot, 'type': ty,
                     'layout': 'csr'})
@@ -386,7 +394,7 @@ def run(run):
     run.extra['bound'] = {'shapes': D.shapes(run.tier), 'layouts': D.LAYOUTS, 'readers': READERS,
                           'metadata_values': len(md_values(run.tier))}
     vacuity(run, ['clause:history-roundtrip', 'clause:wellformed', 'clause:same-document', 'clause:independent-decode'] +
-            ['reader:' + r for r in READERS] + ['prod:A', 'prod:B-ids', 'prod:B-md', 'prod:C'])
+            ['reader:' + r for r in READERS] + ['prod:A', 'prod:B-ids', 'prod:B-md', 'prod:C', 'prod:V'])
     run.assumptions += ['stdlib json/gzip are the independent decoder',
                         'creation_date is passed explicitly (the writer otherwise calls datetime.now())']
 
